@@ -14,7 +14,8 @@ def sh(cmd, **kw):
     return subprocess.run(cmd, shell=True, stdout=subprocess.PIPE, stderr=subprocess.STDOUT, text=True, **kw)
 sh("git -C %s checkout -q -- . && git -C %s clean -fdq -e target" % (wt, wt))
 def run_demo():
-    r = sh("mkdir -p %s/tests && " % wt + sd["demo_command"], timeout=3000)
+    cmd = re.sub(r"\s*\((?:create|mkdir)[^)]*\)", "", sd["demo_command"]).split("   #")[0].split("     #")[0]
+    r = sh("mkdir -p %s/tests && " % wt + cmd, timeout=3000)
     tail = "\n".join(r.stdout.strip().split("\n")[-12:])
     return r.returncode, tail
 rc_clean, out_clean = run_demo()
@@ -24,7 +25,7 @@ base = sh("cd %s && cargo test --workspace --no-fail-fast --offline --lib --bins
 rc_seed, out_seed = run_demo()
 sh("git -C %s checkout -q -- . && git -C %s clean -fdq -e target" % (wt, wt))
 ok = rc_clean == 0 and rc_seed != 0 and "31 passed" in base and "93 passed" in base and "failed; 0" not in base.replace("0 failed", "")
-dst = "/verif/seeded/%s-s%d" % (prop, k)
+dst = "/verif/seeded/%s-s%d" % (prop, k + int(os.environ.get("SEED_OFFSET", "0")))   # second round: SEED_OFFSET=2
 os.makedirs(dst, exist_ok=True)
 shutil.copy("%s/seed%d.diff" % (out, k), os.path.join(dst, "patch.diff"))
 for f in os.listdir(out):
